@@ -235,4 +235,10 @@ theorem window_eq (X : List Nat) (s pos w : Nat) (single : Bool) (hX : WordsOf X
         Bool.true_and]
       congr 1; omega
 
+/-- window decomposition: `s / 2^pos = (s / 2^pos) % 2^w + 2^w * (s / 2^(pos+w))` -/
+theorem div_split (s pos w : Nat) :
+    s / 2 ^ pos = s / 2 ^ pos % 2 ^ w + 2 ^ w * (s / 2 ^ (pos + w)) := by
+  rw [pow_add, ← Nat.div_div_eq_div_mul, Nat.add_comm]
+  exact (Nat.div_add_mod _ _).symm
+
 end Dalek.Proofs.Recode
